@@ -1,5 +1,8 @@
 (* C15 -- property theorems only.  Each is closed by [exact] of a lemma of
-   Proofs.v and followed by Print Assumptions. *)
+   Proofs.v and followed by Print Assumptions.
+   All statements are unbounded: any number of levels, any block sizes
+   (square or rectangular), any per-level pattern (any order of its entries,
+   any first non-zero position, possibly empty). *)
 From Coq Require Import ZArith List Bool.
 From Verif.C15 Require Import Model Spec Proofs.
 Import ListNotations.
@@ -21,6 +24,27 @@ Theorem seq_bijection_ranges : forall dims,
 Proof. exact (fun dims => conj (fun I => to_seq_range_l I dims) (from_seq_valid_l dims)). Qed.
 Print Assumptions seq_bijection_ranges.
 
+(* ---- sequential (i,j) <-> multilevel index: mutually inverse ---- *)
+Theorem reindex_inverse : forall bs i j,
+  dims_pos (rowdims bs) -> dims_pos (coldims bs) ->
+  0 <= i < fst (shape bs) -> 0 <= j < snd (shape bs) ->
+  reindex_from_multilevel (reindex_to_multilevel i j bs) bs = (i, j).
+Proof. exact reindex_multilevel_roundtrip_l. Qed.
+Print Assumptions reindex_inverse.
+
+Theorem reindex_inverse_conv : forall bs M, valid_ml M bs ->
+  let ij := reindex_from_multilevel M bs in
+  reindex_to_multilevel (fst ij) (snd ij) bs = M
+  /\ 0 <= fst ij < fst (shape bs) /\ 0 <= snd ij < snd (shape bs).
+Proof. exact reindex_multilevel_roundtrip2_l. Qed.
+Print Assumptions reindex_inverse_conv.
+
+(* reordered (Van Loan-Pitsianis) numbering = the two-level case, hence a bijection too *)
+Theorem reindex_from_reordered_two_level : forall i j m1 n1 m2 n2,
+  reindex_from_reordered i j m1 n1 m2 n2 = reindex_from_multilevel [i; j] [(m1, n1); (m2, n2)].
+Proof. exact reindex_from_reordered_l. Qed.
+Print Assumptions reindex_from_reordered_two_level.
+
 (* ---- nonzero(): the Kronecker pattern in data-layout order; lower_tri = the J<=I sub-list ---- *)
 Theorem nonzero_2d_spec : forall b1 b2 m1 n1 m2 n2 lt,
   ml_nonzero_2d b1 b2 [(m1, n1); (m2, n2)] lt
@@ -33,3 +57,100 @@ Theorem nonzero_3d_spec : forall b1 b2 b3 m1 n1 m2 n2 m3 n3 lt,
   = filter (keep lt) (kron_pattern [(m1, n1); (m2, n2); (m3, n3)] [b1; b2; b3]).
 Proof. exact nonzero_3d_l. Qed.
 Print Assumptions nonzero_3d_spec.
+
+(* the generic routine (odometer over cur_idx, with block_j initialised per level as in
+   fixes/C15-nonzero-nd-block-j-init.patch), any number of levels *)
+Theorem nonzero_nd_spec : forall bidx bs lt,
+  ml_nonzero_nd bidx bs lt = filter (keep lt) (kron_pattern bs bidx).
+Proof. exact nonzero_nd_l. Qed.
+Print Assumptions nonzero_nd_spec.
+
+(* MLStructure.nonzero with its dispatch on the number of levels *)
+Theorem nonzero_spec : forall bs bidx lt, length bs = length bidx ->
+  (lt = true -> length bidx <> 1%nat) ->
+  nonzero bs bidx lt = Some (filter (keep lt) (kron_pattern bs bidx)).
+Proof. exact nonzero_spec_l. Qed.
+Print Assumptions nonzero_spec.
+
+(* the odometer of pyx_raveled_cartesian_product / ml_nonzero_nd enumerates the Cartesian
+   product in C order *)
+Theorem odometer_is_product : forall (A : Type) (d : A) (ls : list (list A)), odo_enum d ls = product ls.
+Proof. exact (@odo_enum_product_l). Qed.
+Print Assumptions odometer_is_product.
+
+(* kron_pattern is, as a set, the positionwise Kronecker product: (I,J) is reported iff at
+   every level the pair of digits (I_k, J_k) belongs to the level pattern *)
+Theorem kron_pattern_is_kronecker : forall bs bidx I J,
+  wf_structure bs bidx -> dims_pos (rowdims bs) -> dims_pos (coldims bs) ->
+  (In (I, J) (kron_pattern bs bidx) <-> kron_nonzero bs bidx I J).
+Proof. exact kron_pattern_mem_l. Qed.
+Print Assumptions kron_pattern_is_kronecker.
+
+(* ---- per-row / per-column queries: exactly the entries of those rows (columns), row by
+   row in the order of `rows` (unsorted, repeated or empty lists included), inside a row in
+   pattern order; indices outside the matrix are refused ---- *)
+Theorem rows_spec : forall bs bidx rows l,
+  wf_structure bs bidx -> dims_pos (rowdims bs) ->
+  nonzeros_for_rows bs bidx rows = Some l ->
+  map (fun t => (fst (fst t), snd (fst t))) l
+  = flat_map (fun r => filter (fun e => fst e =? r) (kron_pattern bs bidx)) rows.
+Proof. exact rows_spec_l. Qed.
+Print Assumptions rows_spec.
+
+Theorem rows_defined : forall bs bidx rows,
+  (exists l, nonzeros_for_rows bs bidx rows = Some l) <-> Forall (fun r => 0 <= r < fst (shape bs)) rows.
+Proof. exact rows_defined_l. Qed.
+Print Assumptions rows_defined.
+
+Theorem cols_spec : forall bs bidx cols l,
+  wf_structure bs bidx -> dims_pos (coldims bs) ->
+  nonzeros_for_columns bs bidx cols = Some l ->
+  l = flat_map (fun c => filter (fun e => snd e =? c) (kron_pattern bs bidx)) cols.
+Proof. exact cols_spec_l. Qed.
+Print Assumptions cols_spec.
+
+(* ---- transposition ---- *)
+Theorem transpose_spec : forall bs bidx,
+  kron_pattern (transpose_bs bs) (transpose_bidx bidx) = map swap (kron_pattern bs bidx).
+Proof. exact transpose_pattern_l. Qed.
+Print Assumptions transpose_spec.
+
+Theorem transpose_involution : forall bs bidx,
+  transpose_bs (transpose_bs bs) = bs /\ transpose_bidx (transpose_bidx bidx) = bidx.
+Proof. exact transpose_involutive_l. Qed.
+Print Assumptions transpose_involution.
+
+(* ---- matrix-vector product = dense matrix (denoted by the data tensor) times vector, with
+   the output vector of shape[0] entries (fixes/C15-matvec-rectangular.patch): never an
+   out-of-range write, correct length, correct entries; rectangular blocks included ---- *)
+Theorem matvec_spec : forall bs bidx data x,
+  wf_structure bs bidx -> length bs = length bidx -> 0 <= fst (shape bs) -> 0 <= snd (shape bs) ->
+  exists y, matvec bs bidx data x = Some y /\
+    Z.of_nat (length y) = fst (shape bs) /\
+    forall r, 0 <= r < fst (shape bs) ->
+      nth (Z.to_nat r) y 0 = dense_matvec (triples bs bidx data) (Z.to_nat (snd (shape bs))) x r.
+Proof. exact matvec_spec_l. Qed.
+Print Assumptions matvec_spec.
+
+(* ---- pattern of two spline spaces ----
+   NOT PROVED: sparsity_ij_spec --
+     forall supp1 supp2 (supports with fst < snd, starts and ends non-decreasing), a b,
+       In (a,b) (compute_sparsity_ij supp1 supp2) <->
+       exists s2 s1, nth_error supp2 a = Some s2 /\ nth_error supp1 b = Some s1 /\ overlap s2 s1
+   Missing: completeness (<-), i.e. that the searchsorted start skips only supports that end
+   before s2 starts and that the while loop stops only when all later supports start after s2
+   ends; both need the monotonicity of the support arrays.  Completeness is covered by the
+   tie (exact list comparison) and the overlap oracle on every run. *)
+Theorem sparsity_ij_spec_partial : forall supp1 supp2 a b,
+  In (a, b) (compute_sparsity_ij supp1 supp2) ->
+  exists s2 s1, 0 <= a /\ 0 <= b /\
+    nth_error supp2 (Z.to_nat a) = Some s2 /\ nth_error supp1 (Z.to_nat b) = Some s1 /\ overlap s2 s1.
+Proof. exact sparsity_sound_l. Qed.
+Print Assumptions sparsity_ij_spec_partial.
+
+(* NOT PROVED (no theorem; exercised by the exact tie and the dense oracle on every run):
+   asmatrix_spec      -- dense_entry (asmatrix bs bidx data) = dense_entry (triples bs bidx data)
+                         (the canonical sorted form sums duplicates and drops zeros);
+   reorder_spec       -- entries of reorder_asmatrix at permuted digits equal the original entries;
+   transpose_idx_involution -- transpose_idx b = Some t -> nth (nth k t) t = k on duplicate-free b;
+   kron_partial_spec  -- kron_partial As rows restrict = selected rows of the dense product. *)
